@@ -31,6 +31,7 @@ import Distill.Model.Srcset
 import Distill.Model.AbsURL
 import Distill.Model.Style
 import Distill.Model.Candidates
+import Distill.Model.LinkScore
 namespace Distill.Slices
 open Distill Distill.Proto
 
@@ -308,6 +309,32 @@ def wordcounterSlice : P String := do
   let c := selectCounter sample.toList
   let name := match c with | .full => "Full" | .letter => "Letter" | .fast => "Fast"
   pure s!"{name} {c.count text.toList}"
+
+/-- `linkscore next absOK hasPrefix restHasDigit cleanOK href eqCurrent eqFolder inFolder remainder text
+class id n (class id)* current prefixLen` → what the prev/next finder decides about the anchor -/
+def linkscoreSlice : P String := do
+  let next ← bool
+  let absOK ← bool; let hasPrefix ← bool; let restHasDigit ← bool; let cleanOK ← bool
+  let href ← str
+  let eqCurrent ← bool; let eqFolder ← bool; let inFolder ← bool
+  let remainder ← str; let text ← str; let cls ← str; let id ← str
+  let n ← nat
+  let parents ← many n (do let c ← str; let i ← str; pure (c, i))
+  let current ← str
+  let prefixLen ← nat
+  let F : LinkScore.Facts := ⟨absOK, hasPrefix, restHasDigit, cleanOK, href, eqCurrent, eqFolder, inFolder, remainder, text,
+    cls, id, parents, current, prefixLen⟩
+  match LinkScore.verdict next F with
+  | .ignored why => pure s!"I:{why}"
+  | .banned => pure "B"
+  | .cand sc => pure s!"C:{sc}"
+
+/-- `pagediff page href skip` → `getPageDiff` -/
+def pagediffSlice : P String := do
+  let a ← str; let b ← str; let k ← nat
+  match LinkScore.pageDiff a.toUTF8.toList b.toUTF8.toList k with
+  | some d => pure s!"{d}"
+  | none => pure "-"
 
 /-- `candidates class id rel itemprop text` → the unlikely / maybe / byline answers -/
 def candidatesSlice : P String := do
@@ -693,6 +720,8 @@ def dispatch (slice : String) : Option (P String) :=
   | "createabs" => some createabsSlice
   | "style" => some styleSlice
   | "candidates" => some candidatesSlice
+  | "linkscore" => some linkscoreSlice
+  | "pagediff" => some pagediffSlice
   | "strip" => some stripSlice
   | "title" => some titleSlice
   | "textblocks" => some textblocksSlice
